@@ -328,7 +328,7 @@ def generate(rng, tier):
         cfg = gen_cfg(rng)
         a = gen_request(rng, cfg, first=True, last=True, max_body=30)
         raw = render_request(a)
-        m = rng.randrange(9)
+        m = rng.randrange(11)
         connect_ok = True
         if m == 0:
             raw = b'CONNECT ' + rng.choice([b'h.example:443', b'[::1]:8443']) + b' HTTP/1.1\r\nHost: h\r\n\r\n'
@@ -358,6 +358,15 @@ def generate(rng, tier):
             t = dict(a['target'], port=rng.choice([b'0', b'65536', b'99999']))
             a2 = dict(a, target=t)
             reqs = [dict(abs=None, raw=render_request(a2))]
+        elif m in (8, 9):
+            # two (or three) requests packed into the same bytes: the remainder loop of on_client_data / handle_data (C04's business;
+            # here only the model is compared)
+            more = b''.join(render_request(gen_request(rng, dict(cfg, auth=None), first=False, last=True, max_body=20)) for _ in range(rng.randint(1, 2)))
+            if m == 8:
+                reqs = [dict(abs=None, raw=raw + more)]
+            else:
+                b = gen_request(rng, cfg, first=False, last=False, max_body=20)
+                reqs = [dict(abs=a, raw=raw), dict(abs=None, raw=render_request(b) + more)]
         else:
             reqs = [dict(abs=None, raw=mutate(rng, raw))]
         reqs = [q for q in reqs if q['raw']]
